@@ -346,6 +346,7 @@ func runHTLC(c *Ctx) {
 	for _, f := range w.selfCheckFailures {
 		c.Disagree(props, "harness-selfcheck", "by-construction validity differs from btcec verification", f, nil)
 	}
+	runP2PKParse(c, w, now, cases, false)
 	runHTLCSigAll(c, w, now, pre, goodHash)
 	runHTLCHelpers(c, w, now, pre, goodHash)
 	runHTLCRegressions(c, w, now, pre, goodHash)
